@@ -22,7 +22,7 @@ func init() {
 		natives["(encoding/binary.bigEndian).Uint"+nm] = func(fr *Frame, fn *ssa.Function, pos token.Pos, st *State, args []*Term) []*Term {
 			b := args[1]
 			fr.obl("extpre:BigEndian.Uint"+nm, pos, BVUle(bv64(int64(w)), Acc("slen", b)), "C13")
-			arr := Select(st.amem(types.Typ[types.Uint8]), Acc("sbase", b))
+			arr := st.arr(types.Typ[types.Uint8], Acc("sbase", b))
 			off := Acc("soff", b)
 			var acc *Term
 			for k := 0; k < w; k++ {
@@ -114,7 +114,7 @@ func nativeSprintf(fr *Frame, fn *ssa.Function, pos token.Pos, st *State, args [
 	}
 	emptyI := types.NewInterfaceType(nil, nil)
 	vs := args[1]
-	arr := Select(st.amem(emptyI), Acc("sbase", vs))
+	arr := st.arr(emptyI, Acc("sbase", vs))
 	argN := 0
 	total := bv64(0)
 	known := true
